@@ -289,9 +289,12 @@ def window_plans(sid0, r, geoms):
     add("PB", ["endless"], [first, {"post": "@Wh"}, {"sleep": 0.7}, {"post": "up"}, {"sleep": 0.2}, {"post": "@Ws"}], "cpw-hide-while-running", r + 4,
         leave=["abort", "accept", "sigterm"][r % 3])
     add("PB", ["instant"], [first, {"post": "@Wh"}, {"sleep": 0.2}, {"post": "@Ws"}], "cpw-hide-show-same-line", r + 5)
-    if r == 0:          # F30 (repaired in /repo, 57de50f): show-again and move back in one chain
-        # GENUINE DEFECT (F30, deviation StaleAfterShowKeep): move away, show and move back in one chain.  Not part of the registered
-        # run until the integrator has decided (fix or known_findings.json): it fails on the unchanged tree
+    # the wrap mode switched by toggle-preview-wrap does not survive change-preview-window (the options are rebuilt from the
+    # ones the finder was started with): lines wider than the window, wrap toggled, hidden, shown again
+    add("PA", ["instant"], [first, {"post": "toggle-preview-wrap"}, shown, {"post": "@Wh"}, {"sleep": 0.2}, {"post": "@Ws"}, shown,
+                            {"post": "toggle-preview-wrap"}, shown, {"post": "up"}], "cpw-after-toggle-wrap", r + 1, suffix="-" + "w" * 16,
+        wrap=(r % 2 == 1))
+    if r == 0:          # F30 (repaired in /repo, 57de50f): show-again and move back in one chain; passes on the repaired tree
         add("PB", ["instant"], [first, {"post": "@Wh"}, {"sleep": 0.3}, {"post": "up+@Ws+down"}], "cpw-show-and-move-back", r)
     # (B)
     for k, lay in enumerate((r, r + 3)):
